@@ -14,6 +14,8 @@ import XdslModel.OpDef
 import XdslModel.StructEq
 import XdslModel.Names
 import XdslModel.Clone
+import XdslModel.RegAlloc
+import XdslModel.Literals
 /-!
 Model registry for the driver: `MODEL <name>` selects a `(state, lineStep)` pair.
 A continuation-passing encoding is used because the state types differ.
@@ -40,6 +42,8 @@ def run? (name : String) : Option Runner :=
   | "struct_eq" => some fun k => k StructEq.lineStep ()
   | "names" => some fun k => k Names.lineStep [{}]
   | "clone" => some fun k => k Clone.lineStep {}
+  | "regalloc" => some fun k => k RegAlloc.lineStep ()
+  | "literals" => some fun k => k Literals.lineStep ()
   | _ => none
 
 end Xdsl.Registry
